@@ -1133,9 +1133,8 @@ def run(chk):
     groups += build_datetime_groups(rng, thorough)
     groups += build_precedence_groups(rng, thorough)
     groups += build_sweep_groups(rng, thorough)
-    only = chk.extra.pop("only", None) if hasattr(chk, "extra") else None
     import os
-    only = os.environ.get("C05_ONLY")
+    only = os.environ.get("C05_ONLY")     # development aid: comma-separated group-id prefixes (plus "misc", "doc")
     if only:
         groups = [g for g in groups if any(g.gid.startswith(o) for o in only.split(","))]
     SEEN_NT.clear()
